@@ -488,6 +488,11 @@ func TestVerifC04EcsHistory(t *testing.T) {
 					// 353): a key that is case-folded as a whole merges them.
 					q.qt ^= 0x20
 					nearMiss = "qtype-bit5"
+				case 6:
+					// Types that differ in the high octet only (A 1 and CAA 257,
+					// HTTPS 65 and 321): a key that loses that octet merges them.
+					q.qt ^= 0x100
+					nearMiss = "qtype-high-octet"
 				case 4:
 					q.qc = map[uint16]uint16{dns.ClassINET: dns.ClassCHAOS, dns.ClassCHAOS: dns.ClassINET}[q.qc]
 					nearMiss = "qclass"
